@@ -136,6 +136,37 @@ def pair_number(c, rng):
     return ("number", short, {}, long_, {nm: size})
 
 
+def number_nondividing_items(rng, n):
+    """a number inside a parenthesised axis, on a tensor whose dimension is NOT a multiple of what the group needs: the short form
+    must fail exactly like the long form (a named axis of that length)"""
+    import copy
+    items = []
+    tries = 0
+    while len(items) < n and tries < n * 60:
+        tries += 1
+        c = gencalls.gen_call(rng)
+        p = pair_number(c, rng)
+        if p is None:
+            continue
+        _, short, skw, long_, lkw = p
+        nm = next(iter(lkw))
+        # the tensor dimension that holds the numbered axis inside a flattened group
+        where = [(ti, di) for ti, t in enumerate(c.ins) for di, d in enumerate(t)
+                 if isinstance(d, gencalls.Fl) and any(l.name == nm for l in d.leaves()) and len(d.leaves()) >= 2 and lkw[nm] >= 2]
+        if not where:
+            continue
+        ti, di = rng.choice(where)
+        a = np.asarray(c.arrays[ti])
+        if a.ndim <= di or np.asarray(c.arrays[ti]).shape != gencalls.shape_of(c.ins[ti]):
+            continue
+        sh = list(a.shape)
+        sh[di] += 1                                   # no longer a multiple (the group's other axes have size >= 1, the number >= 2)
+        c2 = copy.copy(c)
+        c2.arrays = [np.zeros(sh, dtype=a.dtype) if k == ti else x for k, x in enumerate(c.arrays)]
+        items.append((c2, "number_in_group_nondividing", short, skw, long_, lkw))
+    return items
+
+
 def pair_ellipsis(c, rng, anonymous):
     """an ellipsis = its written-out repetition; anonymous '...' = one shared named ellipsis"""
     if c.family not in ("elementwise", "reduce", "id", "preserve"):
@@ -383,7 +414,7 @@ def make_items(rng, n):
         if p is None:
             continue
         items.append((c,) + p)
-    return items + ellipsis_implicit_items(rng, max(8, n // 25)) + sized_ellipsis_items(rng, max(8, n // 25))
+    return items + ellipsis_implicit_items(rng, max(8, n // 25)) + sized_ellipsis_items(rng, max(8, n // 25)) + number_nondividing_items(rng, max(8, n // 25))
 
 
 def run(ctx):
